@@ -10,11 +10,17 @@ Skeleton = nested lists of nodes; a node is a tuple:
   ("for", i, body)                counted for: py `for j in range(d[i])`, js/java/c `for (j = 0; j < d[i]; j++)`
   ("forin", i, body)              py `for e in d[i]` over a list of length 0..2 ; js `for (const e of d[i])`
   ("dowhile", i, body)            body, then repeat while counter < d[i]     (no Python rendering)
+  ("whileelse", i, body, else)    Python only: while ... else (the else clause runs iff the loop ended without break)
+  ("forelse", i, body, else)      Python only: for j in range(d[i]) ... else
   ("break",) ("continue",) ("return",)
   ("try", i, body, handler, else|None, final|None)   body raises iff d[i] (a raise statement is appended under `if d[i]`)
   ("switch", i, [case bodies], default|None, breaks) d[i] in {0..len(cases)}
   ("func", body)                  nested function declaration followed by a call of it
   ("class",)                      nested class declaration with one method
+  ("procs", [spec, ...])          (only as the whole body, see starter_skeletons) a program of PARAMETERLESS procedures p0, p1, ...
+                                  called by main(d); spec = (kind, i, inner, tail): the body of the procedure STARTS with the
+                                  compound statement `kind`, whose decision is the module-level / static scalar G<i> that
+                                  main sets to d[i] just before the call
 
 Renderers: Python, JavaScript, TypeScript (the JavaScript text), Java, C (own ground-truth engines), PHP and Go (no runtime
 in the sandbox: same const() order and same meaning as the JavaScript rendering, which supplies the ground truth).
@@ -24,6 +30,7 @@ import itertools
 import random
 
 LOOPS = ("while", "for", "forin", "dowhile")
+ELSE_LOOPS = ("whileelse", "forelse")
 
 
 class Skel:
@@ -47,6 +54,8 @@ class Builder:
         ks = ["s", "s", "if", "if", "while", "for", "forin", "return", "try", "switch"]
         if self.lang != "python":
             ks.append("dowhile")
+        else:
+            ks += ["whileelse", "forelse"]
         if in_loop:
             ks += ["break", "continue", "break", "continue"]
         if depth <= 1 and not in_func_nest:
@@ -87,6 +96,16 @@ class Builder:
             i = self.dec(tuple(self.loop_dom))
             body = self.block(depth + 1, True, nest, k) if self.rng.random() < 0.95 or self.lang == "python" else []
             return (k, i, body)
+        if k in ELSE_LOOPS:
+            i = self.dec(tuple(self.loop_dom))
+            body = self.block(depth + 1, True, nest, k)
+            if not any(x[0] == "break" for x in body) and self.rng.random() < 0.7:
+                # a break of this very loop under a decision: the case in which the else clause is skipped
+                j = self.dec((0, 1))
+                body = body[:-1] + [("if", j, [("break",)], None)] + body[-1:] if body[-1][0] in ("break", "continue", "return") \
+                    else body + [("if", j, [("break",)], None)]
+            els = self.block(depth + 1, in_loop, nest, "loop-else")
+            return (k, i, body, els)
         if k == "try":
             i = self.dec((0, 1))
             body = self.block(depth + 1, in_loop, nest, "try")
@@ -124,15 +143,17 @@ def random_skeleton(seed, lang, max_depth=3, only=None, loop_dom=(0, 1, 2)):
     return Skel(body, b.domains, f"rand{seed}"), b.pairs
 
 
-SYS_KIND = {"else": "if", "except": "try", "finally": "try", "ifelse": "if", "emptyif": "if", "tryfin": "try", "switchnd": "switch"}
+SYS_KIND = {"else": "if", "except": "try", "finally": "try", "ifelse": "if", "emptyif": "if", "tryfin": "try", "switchnd": "switch",
+            "whileelse-else": "whileelse", "forelse-else": "forelse", "whileelse-nb": "whileelse", "forelse-nb": "forelse"}
 
 
 def systematic_skeletons(lang, only=None):
     """Every (outer, inner) nesting at depth 2 in three positions (alone / leading simple / trailing simple).
     `only`: optional whitelist of node kinds (same meaning as for Builder): nestings that need another kind are left out."""
-    outers = ["if", "else", "while", "for", "forin", "try", "except", "finally", "switch", "func"] + (["dowhile"] if lang != "python" else [])
+    outers = ["if", "else", "while", "for", "forin", "try", "except", "finally", "switch", "func"] + \
+             (["dowhile"] if lang != "python" else ["whileelse", "whileelse-else", "forelse", "forelse-else"])
     inners = ["s", "if", "ifelse", "while", "for", "forin", "break", "continue", "return", "try", "tryfin", "switch", "switchnd", "func", "class"] + \
-             (["dowhile", "emptyif"] if lang != "python" else [])
+             (["dowhile", "emptyif"] if lang != "python" else ["whileelse", "whileelse-nb", "forelse", "forelse-nb"])
     if only is not None:
         outers = [o for o in outers if SYS_KIND.get(o, o) in only]
         inners = [i for i in inners if SYS_KIND.get(i, i) in only]
@@ -145,7 +166,7 @@ def systematic_skeletons(lang, only=None):
                 def dec(dom):
                     doms.append(dom)
                     return len(doms) - 1
-                in_loop = o in LOOPS
+                in_loop = o in LOOPS or o in ELSE_LOOPS       # (the else clause of a loop is not inside it)
                 if inn in ("break", "continue") and not in_loop:
                     continue
                 if inn in ("break", "continue", "return") and pos in ("trail", "both"):
@@ -166,6 +187,10 @@ def systematic_skeletons(lang, only=None):
                         return ("if", dec((0, 1)), [("s",)], [("s",)])
                     if inn in LOOPS:
                         return (inn, dec((0, 1, 2)), [("s",)])
+                    if inn in ELSE_LOOPS:          # with a break of its own under a decision
+                        return (inn, dec((0, 1, 2)), [("s",), ("if", dec((0, 1)), [("break",)], None), ("s",)], [("s",)])
+                    if inn in ("whileelse-nb", "forelse-nb"):      # no break: the else clause always runs
+                        return (inn[:-3], dec((0, 1, 2)), [("if", dec((0, 1)), [("continue",)], None), ("s",)], [("s",)])
                     if inn in ("break", "continue", "return", "class"):
                         return (inn,)
                     if inn == "try":
@@ -189,6 +214,12 @@ def systematic_skeletons(lang, only=None):
                     outer = ("if", dec((0, 1)), [("s",)], blk)
                 elif o in LOOPS:
                     outer = (o, dec((0, 1, 2)), blk)
+                elif o in ELSE_LOOPS:
+                    # the inner construct in the loop body, followed by a break of the outer loop under a decision
+                    outer = (o, dec((0, 1, 2)), blk + ([("if", dec((0, 1)), [("break",)], None)] if blk[-1][0] not in ("break", "continue", "return") else []), [("s",)])
+                elif o in ("whileelse-else", "forelse-else"):
+                    # the inner construct in the else clause
+                    outer = (o[:-5], dec((0, 1, 2)), [("s",), ("if", dec((0, 1)), [("break",)], None)], blk)
                 elif o == "try":
                     outer = ("try", dec((0, 1)), blk, [("s",)], None, None)
                 elif o == "except":
@@ -202,6 +233,42 @@ def systematic_skeletons(lang, only=None):
                 for tail in (True, False):
                     body = [("s",), outer] + ([("s",)] if tail else [])
                     out.append(Skel(body, list(doms), f"{o}>{inn}:{pos}:{'tail' if tail else 'last'}"))
+    return out
+
+
+# compound statements a parameterless procedure can START with, per language (the statement must be the first GIR row of the
+# body: no declaration, no temporary in front of it — hence the plain global scalar as condition)
+STARTERS = {
+    "python": ("if", "switch", "try", "while"),
+    "javascript": ("dowhile", "while", "for", "if", "switch", "try"),
+    "typescript": ("dowhile", "while", "for", "if", "switch", "try"),
+    "java": ("dowhile", "while", "for", "if", "switch", "try"),
+    "c": ("dowhile", "while", "for", "if", "switch"),
+    "php": ("dowhile", "while", "if", "switch", "try"),
+    "go": ("while", "for", "if", "switch"),
+}
+STARTER_DOM = {"dowhile": (0, 1, 2), "while": (0, 1, 2), "for": (0, 1, 2), "if": (0, 1), "switch": (0, 1, 2), "try": (0, 1)}
+
+
+def starter_skeletons(lang, per_program=3):
+    """Programs of several methods, most of them WITHOUT parameters, whose bodies start with each compound statement in turn
+    (with a plain statement / break / continue / return inside, with and without a statement after it). ControlFlowAnalysis
+    hands the shared default list `parent_stmts=[]` of analyze_block to the handler of the first statement of a parameterless
+    method: a handler that extends the list it was given leaks its statement into every method analysed later."""
+    specs = []
+    for kind in STARTERS.get(lang, ()):
+        inners = [[("s",)], [("s",), ("return",)]]
+        if kind in ("dowhile", "while", "for"):
+            inners += [[("s",), ("break",)], [("s",), ("continue",)]]
+        for inner in inners:
+            for tail in (True, False):
+                specs.append((kind, inner, tail))
+    out = []
+    for k in range(0, len(specs), per_program):
+        chunk = specs[k:k + per_program]
+        doms = [STARTER_DOM[kind] for kind, _, _ in chunk]
+        body = [("procs", [(kind, i, inner, tail) for i, (kind, inner, tail) in enumerate(chunk)])]
+        out.append(Skel(body, doms, "procs:" + "+".join(f"{kind}>{inner[-1][0]}{'+s' if tail else ''}" for kind, inner, tail in chunk)))
     return out
 
 
@@ -269,6 +336,19 @@ class PyRenderer:
         elif k == "forin":
             self.emit(ind, f"for e{n[1]} in d[{n[1]}]:")
             self.block(ind + 1, n[2])
+        elif k == "whileelse":
+            c = f"k{n[1]}"
+            self.emit(ind, f"{c} = 0")
+            self.emit(ind, f"while {c} < d[{n[1]}]:")
+            self.emit(ind + 1, f"{c} = {c} + 1")
+            self.block(ind + 1, n[2])
+            self.emit(ind, "else:")
+            self.block(ind + 1, n[3])
+        elif k == "forelse":
+            self.emit(ind, f"for j{n[1]} in range(d[{n[1]}]):")
+            self.block(ind + 1, n[2])
+            self.emit(ind, "else:")
+            self.block(ind + 1, n[3])
         elif k in ("break", "continue"):
             self.emit(ind, k)
         elif k == "return":
@@ -315,9 +395,77 @@ class PyRenderer:
             raise AssertionError(k)
 
     def render(self, skel):
+        if self.is_procs(skel):
+            return self.render_procs(skel)
         self.emit(0, "def main(d):")
         self.block(1, skel.body)
         return "\n".join(self.lines) + "\n"
+
+    # ---- programs of parameterless procedures (see starter_skeletons)
+    dv = "d"
+
+    @staticmethod
+    def is_procs(skel):
+        return bool(skel.body) and skel.body[0][0] == "procs"
+
+    def finish_text(self):
+        return "\n".join(self.lines) + "\n"
+
+    def render_procs(self, skel):
+        specs = skel.body[0][1]
+        self.procs_header(specs)
+        for k, spec in enumerate(specs):
+            self.proc(k, spec)
+        self.procs_main(specs)
+        return self.finish_text()
+
+    def procs_header(self, specs):
+        for kind, i, inner, tail in specs:
+            self.emit(0, f"L{i} = []" if kind == "while" else f"G{i} = 0")
+
+    def proc(self, k, spec):
+        kind, i, inner, tail = spec
+        self.emit(0, f"def p{k}():")
+        if kind == "if":
+            self.emit(1, f"if G{i}:")
+            self.block(2, inner)
+            self.emit(1, "else:")
+            self.emit(2, f"out({self.const()})")
+        elif kind == "switch":
+            self.emit(1, f"match G{i}:")
+            self.emit(2, "case 0:")
+            self.block(3, inner)
+            self.emit(2, "case 1:")
+            self.emit(3, f"out({self.const()})")
+            self.emit(2, "case _:")
+            self.emit(3, f"out({self.const()})")
+        elif kind == "try":
+            self.emit(1, "try:")
+            self.emit(2, f"out({self.const()})")
+            self.emit(2, f"if G{i}:")
+            self.emit(3, "raise ValueError(\"e\")")
+            self.block(2, inner)
+            self.emit(1, "except ValueError:")
+            self.emit(2, f"out({self.const()})")
+        elif kind == "while":
+            # a module-level list shrunk by a method call: no assignment to a global name (a `global` statement would be
+            # the first row of the body)
+            self.emit(1, f"while L{i}:")
+            self.emit(2, f"L{i}.pop()")
+            self.block(2, inner)
+        else:
+            raise AssertionError(kind)
+        if tail:
+            self.emit(1, f"out({self.const()})")
+
+    def procs_main(self, specs):
+        self.emit(0, "def main(d):")
+        self.emit(1, "global " + ", ".join((f"L{i}" if kind == "while" else f"G{i}") for kind, i, _, _ in specs))
+        self.emit(1, f"out({self.const()})")
+        for k, (kind, i, inner, tail) in enumerate(specs):
+            self.emit(1, f"L{i} = [0] * d[{i}]" if kind == "while" else f"G{i} = d[{i}]")
+            self.emit(1, f"p{k}()")
+        self.emit(1, f"out({self.const()})")
 
     def conv_vector(self, v, skel):
         # for-in decisions iterate over a list of that length
@@ -434,10 +582,132 @@ class JsRenderer(PyRenderer):
             raise AssertionError(k)
 
     def render(self, skel):
+        if self.is_procs(skel):
+            return self.render_procs(skel)
         self.emit(0, "function main(d) {")
         self.block(1, skel.body)
         self.emit(0, "}")
         return "\n".join(self.lines) + "\n"
+
+    # ---- programs of parameterless procedures: C-like languages share the shape, the hooks give the spelling
+    END = ";"
+
+    def g(self, i, kind=None):
+        return f"G{i}"
+
+    def truth(self, i, kind):           # the scalar as a condition
+        return self.g(i, kind)
+
+    def positive(self, i):
+        return f"{self.g(i)} > 0"
+
+    def counted_for(self, i):
+        return f"for (let j{i} = 0; j{i} < {self.g(i)}; j{i}++) {{"
+
+    def throw_stmt(self):
+        return "throw 7;"
+
+    def catch_open(self):
+        return "} catch (ex) {"
+
+    def procs_header(self, specs):
+        for kind, i, inner, tail in specs:
+            self.emit(0, f"let G{i} = 0;")
+
+    def proc_open(self, k, spec):
+        self.emit(0, f"function p{k}() {{")
+
+    def proc_close(self, k, spec):
+        self.emit(0, "}")
+
+    def out_stmt(self):
+        return f"out({self.const()}){self.END}"
+
+    def dec_stmt(self, i):
+        return f"{self.g(i)} = {self.g(i)} - 1{self.END}"
+
+    def switch_open(self, i):
+        return f"switch ({self.g(i)}) {{"
+
+    def proc(self, k, spec):
+        kind, i, inner, tail = spec
+        self.proc_open(k, spec)
+        if kind == "while":
+            self.emit(1, self.while_open(i))
+            self.emit(2, self.dec_stmt(i))
+            self.block(2, inner)
+            self.emit(1, "}")
+        elif kind == "dowhile":
+            self.emit(1, "do {")
+            self.emit(2, self.dec_stmt(i))
+            self.block(2, inner)
+            self.emit(1, f"}} while ({self.positive(i)});")
+        elif kind == "for":
+            self.emit(1, self.counted_for(i))
+            self.block(2, inner)
+            self.emit(1, "}")
+        elif kind == "if":
+            self.emit(1, self.if_open(i))
+            self.block(2, inner)
+            self.emit(1, "} else {")
+            self.emit(2, self.out_stmt())
+            self.emit(1, "}")
+        elif kind == "switch":
+            self.switch_body(i, inner)
+        elif kind == "try":
+            self.emit(1, "try {")
+            self.emit(2, self.out_stmt())
+            self.emit(2, self.if_open(i, "try"))
+            self.emit(3, self.throw_stmt())
+            self.emit(2, "}")
+            self.block(2, inner)
+            self.emit(1, self.catch_open())
+            self.emit(2, self.out_stmt())
+            self.emit(1, "}")
+        else:
+            raise AssertionError(kind)
+        if tail:
+            self.emit(1, self.out_stmt())
+        self.proc_close(k, spec)
+
+    def while_open(self, i):
+        return f"while ({self.truth(i, 'while')}) {{"
+
+    def if_open(self, i, kind="if"):
+        return f"if ({self.truth(i, kind)}) {{"
+
+    def switch_body(self, i, inner):
+        self.emit(1, self.switch_open(i))
+        self.emit(2, "case 0:")
+        self.block(3, inner)
+        if inner[-1][0] not in ("return", "break", "continue"):
+            self.emit(3, "break;")
+        self.emit(2, "case 1:")
+        self.emit(3, self.out_stmt())           # no break: falls into the default clause
+        self.emit(2, "default:")
+        self.emit(3, self.out_stmt())
+        self.emit(1, "}")
+
+    def main_open(self, specs):
+        self.emit(0, "function main(d) {")
+
+    def main_close(self, specs):
+        self.emit(0, "}")
+
+    def set_g(self, i, kind):
+        return f"{self.g(i, kind)} = d[{i}]{self.END}"
+
+    def call_p(self, k):
+        return f"p{k}(){self.END}"
+
+    def procs_main(self, specs):
+        self.main_open(specs)
+        self.emit(1, self.out_stmt())
+        for k, (kind, i, inner, tail) in enumerate(specs):
+            self.emit(1, self.set_g(i, kind))
+            self.emit(1, self.call_p(k))
+        self.emit(1, self.out_stmt())
+        self.main_close(specs)
 
 
 class _DuMixin:
@@ -540,9 +810,9 @@ class JavaRenderer(JsRenderer):
             self.block(ind + 1, n[2])
             self.emit(ind, f"}} while ({c} < d[{n[1]}]);")
         elif k == "return":
-            self.emit(ind, f"if (d.length >= 0) {{ return {self.const()}; }}")      # javac rejects statically unreachable code
+            self.emit(ind, f"if ({self.dv}.length >= 0) {{ return {self.const()}; }}")      # javac rejects statically unreachable code
         elif k in ("break", "continue"):
-            self.emit(ind, f"if (d.length >= 0) {{ {k}; }}")
+            self.emit(ind, f"if ({self.dv}.length >= 0) {{ {k}; }}")
         elif k == "try":
             self.emit(ind, "try {")
             pos = (n[1] * 7 + len(n[2])) % (len(n[2]) + 1)
@@ -577,7 +847,69 @@ class JavaRenderer(JsRenderer):
         else:
             JsRenderer.node(self, ind, n)
 
+    # ---- parameterless procedures: static fields, static methods (one indentation level deeper: emitted through emit1)
+    def emit(self, ind, t):
+        JsRenderer.emit(self, ind + getattr(self, "shift", 0), t)
+
+    def truth(self, i, kind):
+        return f"B{i}" if kind == "if" else f"G{i} != 0" if kind == "try" else f"G{i} > 0"
+
+    def counted_for(self, i):
+        return f"for (int j{i} = 0; j{i} < G{i}; j{i}++) {{"
+
+    def throw_stmt(self):
+        return 'throw new RuntimeException("e");'
+
+    def catch_open(self):
+        return "} catch (RuntimeException ex) {"
+
+    def g(self, i, kind=None):
+        return f"B{i}" if kind == "if" else f"G{i}"
+
+    def set_g(self, i, kind):
+        return f"B{i} = d[{i}] != 0;" if kind == "if" else f"G{i} = d[{i}];"
+
+    def switch_body(self, i, inner):
+        self.emit(1, self.switch_open(i))
+        self.emit(2, "case 0:")
+        self.block(3, inner)
+        self.emit(3, f"if ({self.dv}.length >= 0) {{ break; }}")
+        self.emit(2, "case 1:")
+        self.emit(3, self.out_stmt())
+        self.emit(2, "default:")
+        self.emit(3, self.out_stmt())
+        self.emit(1, "}")
+
+    def procs_header(self, specs):
+        self.emit(0, f"public class Sk{self.ident} {{")
+        self.shift = 1
+        self.emit(0, "static int[] D = null;")
+        for kind, i, inner, tail in specs:
+            self.emit(0, f"static boolean B{i} = false;" if kind == "if" else f"static int G{i} = 0;")
+        self.emit(0, "static void out(int k) { System.out.println(k); }")
+        self.dv = "D"
+
+    def proc_open(self, k, spec):
+        self.emit(0, f"static int p{k}() {{")
+
+    def proc_close(self, k, spec):
+        self.emit(1, "return 0;")
+        self.emit(0, "}")
+
+    def main_open(self, specs):
+        self.dv = "d"
+        self.emit(0, "static int main(int[] d) {")
+        self.emit(1, "D = d;")
+
+    def main_close(self, specs):
+        self.emit(1, "return 0;")
+        self.emit(0, "}")
+        self.shift = 0
+        self.emit(0, "}")
+
     def render(self, skel):
+        if self.is_procs(skel):
+            return self.render_procs(skel)
         self.emit(0, f"public class Sk{self.ident} {{")
         self.emit(1, "static void out(int k) { System.out.println(k); }")
         self.emit(1, "static int main(int[] d) {")
@@ -627,7 +959,36 @@ class CRenderer(JavaRenderer):
         else:
             JavaRenderer.node(self, ind, n)
 
+    def truth(self, i, kind):
+        return f"G{i}"
+
+    def g(self, i, kind=None):
+        return f"G{i}"
+
+    def set_g(self, i, kind):
+        return f"G{i} = d[{i}];"
+
+    def switch_body(self, i, inner):
+        JsRenderer.switch_body(self, i, inner)
+
+    def procs_header(self, specs):
+        self.emit(0, "void out(int k);")
+        for kind, i, inner, tail in specs:
+            self.emit(0, f"int G{i};")
+
+    def proc_open(self, k, spec):
+        self.emit(0, f"int p{k}() {{")          # (the C frontend lowers `(void)` to a parameter_decl without name)
+
+    def main_open(self, specs):
+        self.emit(0, "int main_(int* d) {")
+
+    def main_close(self, specs):
+        self.emit(1, "return 0;")
+        self.emit(0, "}")
+
     def render(self, skel):
+        if self.is_procs(skel):
+            return self.render_procs(skel)
         self.emit(0, "void out(int k);")
         self.emit(0, "int main_(int* d) {")
         self.block(1, skel.body)
@@ -767,7 +1128,37 @@ class PhpRenderer(JsRenderer):
         else:
             raise AssertionError(k)
 
+    # ---- parameterless procedures: top-level variables, named in a `global` statement (which leaves no GIR row)
+    def g(self, i, kind=None):
+        return f"$G{i}"
+
+    def set_g(self, i, kind):
+        return f"$G{i} = $d[{i}];"
+
+    def throw_stmt(self):
+        return 'throw new Exception("e");'
+
+    def catch_open(self):
+        return "} catch (Exception $ex) {"
+
+    def procs_header(self, specs):
+        self.emit(0, "<?php")
+        for kind, i, inner, tail in specs:
+            self.emit(0, f"$G{i} = 0;")
+
+    def proc_open(self, k, spec):
+        self.ctx = ["loop"] if spec[0] in ("while", "dowhile", "for") else []
+        self.emit(0, f"function p{k}() {{")
+        self.emit(1, f"global $G{spec[1]};")
+
+    def main_open(self, specs):
+        self.ctx = []
+        self.emit(0, "function main($d) {")
+        self.emit(1, "global " + ", ".join(f"$G{i}" for _, i, _, _ in specs) + ";")
+
     def render(self, skel):
+        if self.is_procs(skel):
+            return self.render_procs(skel)
         self.emit(0, "<?php")
         self.emit(0, "function main($d) {")
         self.block(1, skel.body)
@@ -847,7 +1238,63 @@ class GoRenderer(JsRenderer):
         else:
             raise AssertionError(k)
 
+    # ---- parameterless procedures: package-level variables
+    END = ""
+
+    def g(self, i, kind=None):
+        return f"B{i}" if kind == "if" else f"G{i}"
+
+    def set_g(self, i, kind):
+        return f"B{i} = d[{i}] != 0" if kind == "if" else f"G{i} = d[{i}]"
+
+    def while_open(self, i):
+        return f"for G{i} > 0 {{"
+
+    def counted_for(self, i):
+        return f"for j{i} := 0; j{i} < G{i}; j{i}++ {{"
+
+    def if_open(self, i, kind="if"):
+        return f"if B{i} {{"
+
+    def switch_body(self, i, inner):
+        self.emit(1, f"switch G{i} {{")
+        self.emit(1, "case 0:")
+        self.block(2, inner)
+        self.emit(1, "case 1:")
+        self.emit(2, self.out_stmt())
+        self.emit(2, "fallthrough")
+        self.emit(1, "default:")
+        self.emit(2, self.out_stmt())
+        self.emit(1, "}")
+
+    def procs_header(self, specs):
+        self.emit(0, "package main")
+        self.emit(0, "")
+        for kind, i, inner, tail in specs:
+            self.emit(0, f"var B{i} bool" if kind == "if" else f"var G{i} int")
+        self.emit(0, "")
+
+    def proc_open(self, k, spec):
+        self.emit(0, f"func p{k}() int {{")
+
+    def proc_close(self, k, spec):
+        self.emit(1, "return 0")
+        self.emit(0, "}")
+        self.emit(0, "")
+
+    def main_open(self, specs):
+        self.emit(0, "func run(d []int, a [][]int) int {")
+
+    def main_close(self, specs):
+        self.emit(1, "return 0")
+        self.emit(0, "}")
+
+    def finish_text(self):
+        return "\n".join(self.lines).replace("    ", "\t") + "\n"
+
     def render(self, skel):
+        if self.is_procs(skel):
+            return self.render_procs(skel)
         self.emit(0, "package main")
         self.emit(0, "")
         self.emit(0, "func run(d []int, a [][]int) int {")
